@@ -166,12 +166,27 @@ func drawAddrScript(rt *rapid.T, label string, relay bool) addrScript {
 	return a
 }
 
+// Themes bias the generator towards the interesting regions; theme 0 is unbiased.
+//
+//	1 waiters:    only limited conns at the start, callers that did not allow them, direct conns
+//	              arriving later (inbound, or dialled by a force-direct caller), conns closing
+//	2 dial-first: no conn at the start, the relay address yields a limited conn, callers dial
+//	3 closing:    a conn is closing at the very instant the callers start
 func drawScenario(rt *rapid.T, host bool) *scenario {
 	sc := &scenario{host: host}
+	theme := rapid.SampledFrom([]int{0, 0, 1, 1, 1, 2, 2, 3}).Draw(rt, "theme")
 	if host {
 		sc.negTimeout = ms(rapid.SampledFrom([]int{-1, -1, 0, 3000}).Draw(rt, "negTimeout"))
 	}
 	inits := [][]class{{}, {clsL}, {clsL}, {clsL}, {clsL}, {clsL, clsL}, {clsD}, {clsU}, {clsL, clsD}, {clsD, clsL}, {clsL, clsU}, {clsL, clsL, clsD}}
+	switch theme {
+	case 1:
+		inits = [][]class{{clsL}, {clsL}, {clsL}, {clsL, clsL}}
+	case 2:
+		inits = [][]class{{}}
+	case 3:
+		inits = [][]class{{clsL}, {clsL, clsL}, {clsL, clsD}, {clsD, clsL}, {clsL, clsU}, {clsD}}
+	}
 	sc.initial = inits[rapid.IntRange(0, len(inits)-1).Draw(rt, "initial")]
 	sc.d1 = drawAddrScript(rt, "d1", false)
 	sc.d2 = drawAddrScript(rt, "d2", false)
@@ -179,8 +194,17 @@ func drawScenario(rt *rapid.T, host bool) *scenario {
 		sc.d2 = addrScript{}
 	}
 	sc.r = drawAddrScript(rt, "relay", true)
+	if theme == 2 && rapid.IntRange(0, 5).Draw(rt, "relay-ok") > 0 {
+		sc.r = addrScript{present: true, out: scripted.Succeed, limited: true, delay: ms(rapid.SampledFrom([]int{0, 50, 300, 1000}).Draw(rt, "relay-ok-delay"))}
+		if sc.d1.present && sc.d1.out == scripted.Succeed && sc.d1.delay <= sc.r.delay+500*time.Millisecond && rapid.Bool().Draw(rt, "d1-slower") {
+			sc.d1.delay = 3 * time.Second
+		}
+	}
 
 	nev := rapid.IntRange(0, 4).Draw(rt, "nevents")
+	if theme == 3 {
+		sc.events = append(sc.events, tlEvent{at: 0, kind: evClose, pick: rapid.IntRange(0, 2).Draw(rt, "close0-pick"), local: rapid.Bool().Draw(rt, "close0-local")})
+	}
 	for i := 0; i < nev; i++ {
 		e := tlEvent{at: ms(rapid.SampledFrom(grid).Draw(rt, "ev-at"))}
 		switch rapid.IntRange(0, 9).Draw(rt, "ev-kind") {
@@ -220,11 +244,27 @@ func drawScenario(rt *rapid.T, host bool) *scenario {
 			cs.allow = rapid.IntRange(0, 4).Draw(rt, "allow") == 0
 			cs.nodia = rapid.IntRange(0, 2).Draw(rt, "nodial") == 0
 			cs.force = rapid.IntRange(0, 5).Draw(rt, "force") == 0
+			if theme == 2 && rapid.IntRange(0, 3).Draw(rt, "plain") > 0 {
+				cs.allow, cs.nodia, cs.force = false, false, false
+			}
+			if theme == 3 && rapid.Bool().Draw(rt, "nodial3") {
+				cs.nodia, cs.allow = true, false
+			}
 		} else {
 			cs.force = rapid.IntRange(0, 1).Draw(rt, "force") == 0
 			cs.allow = rapid.IntRange(0, 5).Draw(rt, "allow") == 0
+			if theme == 1 && rapid.IntRange(0, 3).Draw(rt, "force1") > 0 {
+				cs.force = true
+			}
 		}
-		cs.start = ms(rapid.SampledFrom([]int{0, 0, 0, 10, 100, 1000, 2000, 5000, 10000}).Draw(rt, "start"))
+		starts := []int{0, 0, 0, 10, 100, 1000, 2000, 5000, 10000}
+		if theme == 3 {
+			starts = []int{0, 0, 0, 0, 10, 1000}
+		}
+		if theme == 1 && cs.api != apiNewStream {
+			starts = []int{100, 1000, 2000, 5000, 10000, 30000}
+		}
+		cs.start = ms(rapid.SampledFrom(starts).Draw(rt, "start"))
 		switch rapid.IntRange(0, 5).Draw(rt, "ctl") {
 		case 0, 1:
 			// the grid is shared with the events so that cancels coincide with arrivals now and then
@@ -513,8 +553,21 @@ func runScenario(t *testing.T, rt *rapid.T, name string, sc *scenario) {
 			wg.Add(1)
 			go r.caller(cr, &wg)
 		}
-		for i := 0; i < len(sc.events); {
-			at := sc.events[i].at
+		// instants: every event instant, plus a pure quiescence point 1 ms after each caller start
+		inst := map[time.Duration]bool{}
+		for _, e := range sc.events {
+			inst[e.at] = true
+		}
+		for _, cs := range sc.callers {
+			inst[cs.start+time.Millisecond] = true
+		}
+		var instants []time.Duration
+		for at := range inst {
+			instants = append(instants, at)
+		}
+		sort.Slice(instants, func(i, j int) bool { return instants[i] < instants[j] })
+		i := 0
+		for _, at := range instants {
 			time.Sleep(time.Until(w.t0.Add(at)))
 			for ; i < len(sc.events) && sc.events[i].at == at; i++ {
 				e := sc.events[i]
@@ -761,6 +814,20 @@ func (r *run) judge() {
 				r.labels["allowed-stream-on-"+cr.sconn.cls.String()] = true
 			}
 		}
+		// D: a non-limited connection is there during the whole call: there is nothing to wait for
+		// (a BasicHost caller with force-direct dials first unless the conn is a direct one)
+		for _, c := range P {
+			ct, closed := c.closedAt()
+			if c.cls.limited() || !c.certainlyOpenAt(cr.start) || (closed && !ct.After(cr.end)) || (sc.host && cs.force && c.cls != clsD) {
+				continue
+			}
+			if cr.err != nil || !cr.end.Equal(cr.start) {
+				r.fail("caller #%d: non-limited conn #%d (%s) was open from before the call until after it returned, yet NewStream did not return a stream at once (returned at %v: %v)",
+					i, c.seq, c.cls, cr.end.Sub(t0), cr.err)
+			}
+			r.labels["non-limited-conn-present-stream-at-once"] = true
+			break
+		}
 		if cs.allow {
 			continue
 		}
@@ -816,7 +883,7 @@ func (r *run) judge() {
 			}
 		}
 		if shape == "" {
-			r.labels["waiter-stage-uncertain"] = true
+			r.labels["not-a-certain-waiter"] = true
 			continue
 		}
 		nCertain++
@@ -843,7 +910,7 @@ func (r *run) judge() {
 		}
 		// something happened while it waited?
 		for _, c := range P {
-			if c.added.After(twHi) && c.added.Before(cr.end) {
+			if c.added.After(twHi) && !c.added.After(cr.end) {
 				r.nontr = true
 				r.labels["conn-added-while-waiting"] = true
 			}
